@@ -467,7 +467,16 @@ def r5_codec(P, rep, ctx, rule="C03.R5"):
     rep.check("stream.seek(0)" in t and "probe = stream.read(ub_size)" in t, rule, rd.qual, "reader reads from offset 0", rd.loc(), construct="reader offset", message="_read_head_raw does not read from offset 0")
     ld = P.func(f"{UB}.load")
     t = norm(ld.node)
-    rep.check("head = cls._read_head_raw(f, 512)" in t and "if head[0] > 512" in t and "head = cls._read_head_raw(f, head[0])" in t, rule, ld.qual, "reader re-reads with the stored size when it exceeds the probe", ld.loc(), construct="re-read", message="load does not re-read with the stored block size")
+    g = ctx.cfg(ld)
+    rr = [n.idx for n in g.nodes if n.kind == "stmt" and norm(n.stmt) == "head = cls._read_head_raw(f, head[0])"]
+    tests = [x for x in g.nodes if x.kind == "test" and "head[0]" in norm(x.exprs[0]) and "512" in norm(x.exprs[0])]
+    exact = [x for x in tests if norm(x.exprs[0]) in ("head[0] > 512", "512 < head[0]")]
+    rep.check("head = cls._read_head_raw(f, 512)" in t and bool(rr), rule, ld.qual, "reader probes 512 bytes and can re-read with the stored size", ld.loc(), construct="probe + re-read", message="load does not probe 512 bytes / re-read with the stored block size")
+    if tests and not exact:
+        rep.fail(rule, ld.qual, f"re-read condition {norm(tests[0].exprs[0])}", f"the full user block is re-read only under `{norm(tests[0].exprs[0])}` instead of whenever the stored size exceeds the 512-byte probe: longer user blocks are parsed from a truncated probe", ld.loc(tests[0].stmt))
+    else:
+        ok = bool(exact) and all(g.every_path_passes(rr, g.exit, src=x.idx, src_label="T") for x in exact) and g.every_path_passes([x.idx for x in exact], g.exit)
+        rep.check(ok, rule, ld.qual, "whenever the stored size exceeds the probe the block is re-read in full", ld.loc(), construct="re-read condition", message="load does not re-read the full user block whenever the stored size exceeds the probe")
     rep.check("ret._userblock_size = head[0]" in t, rule, ld.qual, "the stored size is kept for the next save", ld.loc(), construct="size kept", message="load does not keep the stored user block size")
     magic = P.const(R, "FORMAT_MAGIC_STR")
     rep.check(isinstance(magic, str) and "\n" not in magic and "\x00" not in magic, rule, R, "magic contains no newline / NUL", P.module(R).relpath, construct=f"magic={magic!r}", message="magic string contains a separator character")
